@@ -459,11 +459,21 @@ func propC09(a *Analysis, r *Registry) {
 				fc := X.FCFor(fn)
 				env := X.EnvFor(fn, "s")
 				calls := fc.CallsTo(m[1])
+				if len(calls) == 0 && m[0] == "StdDev" {
+					calls = fc.CallsTo("stats.Variance") // StdDev(xs) written out as sqrt(Variance(xs))
+				}
 				if len(calls) != 1 {
 					r.Fail("C-decision", "stats.(Sample)."+m[0]+"/delegates-when", b.pos(fn), "expected one call of "+m[1])
 					return
 				}
-				b.Eq("C-decision", "stats.(Sample)."+m[0]+"/delegates-when", a.W.InstrPos(calls[0]), fc.ReachCond(calls[0].Block()), env, "len(s.Xs)==0 || s.Weights==nil")
+				// (a length is never negative: len == 0, len <= 0 and !(0 < len) are one condition)
+				rc := fc.ReachCond(calls[0].Block())
+				for _, alt := range []string{"len(s.Xs)<=0 || s.Weights==nil", "!(0<len(s.Xs)) || s.Weights==nil"} {
+					if w := env.MustParse(alt); rc.Equal(w) || S.BoolEquiv(rc, w) {
+						rc = env.MustParse("len(s.Xs)==0 || s.Weights==nil")
+					}
+				}
+				b.Eq("C-decision", "stats.(Sample)."+m[0]+"/delegates-when", a.W.InstrPos(calls[0]), rc, env, "len(s.Xs)==0 || s.Weights==nil")
 				b.Eq("C-decision", "stats.(Sample)."+m[0]+"/delegates-what", a.W.InstrPos(calls[0]), fc.Val(calls[0].Call.Args[0]), env, "s.Xs")
 			})
 		}
